@@ -107,11 +107,13 @@ class GenomicAnnotationOnDisk(GenomicAnnotation):
             for line in handle:
                 if line.startswith('#'):
                     continue
-                fields = line.rstrip().split('\t')
+                fields = line.rstrip('\n').split('\t')
+                # a gene without transcripts has an empty last field
+                transcripts = fields[3].split(',') if len(fields) > 3 and fields[3] else []
                 pointer = GenePointer(
                     self.handle, key=fields[0],
                     start=int(fields[1]), end=int(fields[2]),
-                    source=source, transcripts=fields[3].split(',')
+                    source=source, transcripts=transcripts
                 )
                 self.genes[pointer.key] = pointer
 
